@@ -1,5 +1,6 @@
 //! C12 harness: indexing, diagnosing and querying any set of files terminates without panicking.
 //!   c12 search --seed S --n N [--case-ms 4000] [--batch 25] [--stack-kib 2048] [--jobs 4] [--mem-mib 4096] [--corpus DIR]
+//!              [--known-file F] [--max-violations 20] [--budget-ms T] [--no-gdb] [--no-classify] [--verify-corpus]
 //!        parent: corpus cases first, then N generated cases, executed in child processes (`batch`); a panic, a fatal
 //!        signal (stack overflow / abort) or a hang of the in-flight case is a violation; failing cases are shrunk
 //!        (line based ddmin through `one`) and printed as JSON lines, then a `{"summary":..}` line.
@@ -51,6 +52,7 @@ struct Case {
     family: String,
     opts: Opts,
     minimal: bool, // corpus witness that is already shrunk: replayed and classified, not shrunk again
+    sig_hint: Option<String>, // corpus witness: the signature recorded when it was found (saves the gdb run while it still fails the same way)
 }
 
 impl Case {
@@ -58,6 +60,9 @@ impl Case {
         let mut v = self.to_json_base();
         if self.minimal {
             v["minimal"] = json!(true);
+        }
+        if let Some(h) = &self.sig_hint {
+            v["signature"] = json!(h);
         }
         v
     }
@@ -84,6 +89,7 @@ impl Case {
             cfg: if v["cfg"].is_object() { v["cfg"].clone() } else { json!({}) },
             family: v["family"].as_str().unwrap_or("corpus").to_string(),
             minimal: v["minimal"].as_bool().unwrap_or(false),
+            sig_hint: v["signature"].as_str().map(|s| s.to_string()),
             opts: Opts {
                 std: o["std"].as_bool().unwrap_or(false),
                 batch: o["batch"].as_bool().unwrap_or(false),
@@ -1346,6 +1352,7 @@ fn gen_case(seed: u64, i: usize) -> Case {
         family: format!("{fam}:{}", g.sub),
         opts: Opts { std, batch: rng.chance(1, 2), all_diag: rng.chance(1, 2), depth: g.depth, mutated },
         minimal: false,
+        sig_hint: None,
     }
 }
 
@@ -1589,9 +1596,10 @@ struct Fail {
 }
 
 /// run cases [from, to) in child processes; every failure is attributed to the in-flight case
-fn run_range(ctx: &Ctx, from: usize, to: usize, ncorpus: usize, stats: &Mutex<Stats>, fails: &Mutex<Vec<Fail>>, stop: &AtomicUsize, cap: usize) {
+fn run_range(ctx: &Ctx, from: usize, to: usize, stats: &Mutex<Stats>, on_fail: &(dyn Fn(Fail) + Sync), stop: &AtomicUsize, cap: usize, run_deadline: Option<Instant>) {
     let mut next = from;
-    while next < to && stop.load(Ordering::SeqCst) < cap {
+    let past = |d: Option<Instant>| d.map(|d| Instant::now() >= d).unwrap_or(false);
+    while next < to && stop.load(Ordering::SeqCst) < cap && !past(run_deadline) {
         let args: Vec<String> = vec![
             "batch".into(), "--seed".into(), ctx.seed.to_string(), "--from".into(), next.to_string(), "--to".into(), to.to_string(),
             "--stack-kib".into(), ctx.stack_kib.to_string(), "--corpus".into(), ctx.corpus_dir.clone(),
@@ -1602,15 +1610,7 @@ fn run_range(ctx: &Ctx, from: usize, to: usize, ncorpus: usize, stats: &Mutex<St
         let mut inflight: Option<(usize, Instant, u64, Instant)> = None; // index, start, cpu at start, deadline
         let mut last_event = Instant::now();
         let idle_ms = ctx.case_ms.max(15_000);
-        let push = |idx: usize, outcome: Outcome| {
-            if let Ok(mut g) = fails.lock() {
-                g.push(Fail { idx, outcome });
-            }
-            // corpus witnesses are known failures: only generated cases count towards the cap
-            if idx >= ncorpus {
-                stop.fetch_add(1, Ordering::SeqCst);
-            }
-        };
+        let push = |idx: usize, outcome: Outcome| on_fail(Fail { idx, outcome });
         loop {
             let dl = match inflight {
                 Some((_, _, _, d)) => d,
@@ -1654,11 +1654,11 @@ fn run_range(ctx: &Ctx, from: usize, to: usize, ncorpus: usize, stats: &Mutex<St
                         }
                         if let Some(m) = v["panic"].as_str() {
                             push(i, Outcome::Panic { msg: m.to_string(), loc: short_loc(v["loc"].as_str().unwrap_or("?")) });
-                            if stop.load(Ordering::SeqCst) >= cap {
-                                let _ = r.child.kill();
-                                let _ = r.child.wait();
-                                break;
-                            }
+                        }
+                        if stop.load(Ordering::SeqCst) >= cap || past(run_deadline) {
+                            let _ = r.child.kill();
+                            let _ = r.child.wait();
+                            break;
                         }
                     }
                 }
@@ -1837,7 +1837,7 @@ fn shrink(ctx: &Ctx, case: &Case, want: &Outcome, max_runs: usize, max_ms: u64) 
 fn overflow_site(ctx: &Ctx, case: &Case) -> Option<(String, String)> {
     let p = tmp_case_file(case);
     let mut cmd = Command::new("timeout");
-    cmd.args(["-k", "5", "240", "gdb", "-nx", "-batch", "-iex", "set debuginfod enabled off", "-ex", "set startup-with-shell off", "-ex", "run", "-ex", "bt 48", "-ex", "bt -24", "--args"])
+    cmd.args(["-k", "5", "240", "gdb", "-nx", "-batch", "-iex", "set debuginfod enabled off", "-ex", "set startup-with-shell off", "-ex", "run", "-ex", "bt 96", "-ex", "bt -24", "--args"])
         .arg(&ctx.exe)
         .args(["one", "--case-file"])
         .arg(&p)
@@ -1865,15 +1865,17 @@ fn overflow_site(ctx: &Ctx, case: &Case) -> Option<(String, String)> {
             entry = prev_fn.clone();
         }
         prev_fn = f.to_string();
-        if num < 48 && f.starts_with("emmylua_") {
+        if num < 96 && f.starts_with("emmylua_") {
             match counts.iter_mut().find(|c| c.0 == f) {
                 Some(c) => c.1 += 1,
                 None => counts.push((f.to_string(), 1)),
             }
         }
     }
+    // the recursion cycle = the functions that fill the innermost frames; name it by its alphabetically first member so
+    // that the name does not depend on where in the cycle the guard page was hit (nor on shrinking)
     let best = counts.iter().map(|c| c.1).max()?;
-    let site = counts.iter().find(|c| c.1 == best)?.0.clone();
+    let site = counts.iter().filter(|c| c.1 * 5 >= best * 3).map(|c| c.0.clone()).min()?;
     let segs: Vec<&str> = site.split("::").collect();
     let short = segs[segs.len().saturating_sub(2)..].join("::");
     let entry_short = entry.rsplit("::").next().unwrap_or("").to_string();
@@ -1903,7 +1905,10 @@ fn signature(case: &Case, o: &Outcome, site: Option<&str>) -> String {
                 None => format!("{head}:{cause}:{fam}{deep}"),
             }
         }
-        Outcome::Timeout => format!("timeout:{fam}"),
+        Outcome::Timeout => match site {
+            Some(s) => format!("timeout@{s}"),
+            None => format!("timeout:{fam}"),
+        },
         Outcome::Ok => "ok".into(),
     }
 }
@@ -1949,6 +1954,62 @@ fn text_hash(s: &str) -> u64 {
     h
 }
 
+/// where a slow case spends its time: sample the child once with gdb after `after_ms` (informational only)
+fn hot_site(ctx: &Ctx, case: &Case, after_ms: u64) -> Option<String> {
+    let p = tmp_case_file(case);
+    let args = vec!["one".to_string(), "--case-file".into(), p.display().to_string(), "--stack-kib".into(), ctx.stack_kib.to_string()];
+    let mut child = ctx.command(&args).stdout(Stdio::null()).stderr(Stdio::null()).spawn().ok()?;
+    // sample once the child has burnt `after_ms` of CPU (at most 30 s of wall clock)
+    let t0 = Instant::now();
+    let pid = child.id().to_string();
+    while cpu_ms(&pid).unwrap_or(u64::MAX) < after_ms && t0.elapsed() < Duration::from_secs(30) {
+        std::thread::sleep(Duration::from_millis(50));
+    }
+    let out = Command::new("timeout")
+        .args(["-k", "5", "120", "gdb", "-nx", "-batch", "-iex", "set debuginfod enabled off", "-p", &child.id().to_string(), "-ex", "thread apply all bt 96"])
+        .stdin(Stdio::null())
+        .stderr(Stdio::null())
+        .output()
+        .ok();
+    let _ = child.kill();
+    let _ = child.wait();
+    let _ = std::fs::remove_file(&p);
+    let text = String::from_utf8_lossy(&out?.stdout).to_string();
+    let mut counts: Vec<(String, usize)> = Vec::new();
+    for l in text.lines() {
+        if !l.starts_with('#') {
+            continue;
+        }
+        let Some(pos) = l.find(" in ") else { continue };
+        let f = l[pos + 4..].split(" (").next().unwrap_or("").trim();
+        let f = match f.rfind("::h") {
+            Some(k) if f.len() - k == 19 => &f[..k],
+            _ => f,
+        };
+        if f.starts_with("emmylua_") {
+            match counts.iter_mut().find(|c| c.0 == f) {
+                Some(c) => c.1 += 1,
+                None => counts.push((f.to_string(), 1)),
+            }
+        }
+    }
+    let best = counts.iter().map(|c| c.1).max()?;
+    let site = counts.iter().filter(|c| c.1 * 5 >= best * 3).map(|c| c.0.clone()).min()?;
+    let segs: Vec<&str> = site.split("::").collect();
+    Some(segs[segs.len().saturating_sub(2)..].join("::"))
+}
+
+/// a failure replayed alone and given its class; the signature is computed from the UNSHRUNK case
+struct Pre {
+    idx: usize,
+    outcome: Outcome,
+    case: Case,
+    reproduced: bool,
+    site: Option<(String, String)>,
+    sig: String,
+    known: bool,
+}
+
 fn search(args: &Args) {
     let t_all = Instant::now();
     let ctx = Ctx {
@@ -1963,8 +2024,31 @@ fn search(args: &Args) {
     let batch = args.usize("batch", 25).max(1);
     let jobs = args.usize("jobs", 4).max(1);
     let cap = args.usize("max-violations", 20);
+    let budget_ms = args.u64("budget-ms", 0);
+    // 70% of the budget for running cases (classification happens as failures arrive), the rest for shrinking
+    let run_deadline = if budget_ms > 0 { Some(t_all + Duration::from_millis(budget_ms * 7 / 10)) } else { None };
+    let end_deadline = if budget_ms > 0 { Some(t_all + Duration::from_millis(budget_ms)) } else { None };
+    let mut known: HashSet<String> = HashSet::new();
+    if args.flag("known-file") {
+        let path = args.str("known-file", "");
+        match std::fs::read_to_string(&path).ok().and_then(|s| serde_json::from_str::<Value>(&s).ok()) {
+            Some(Value::Array(a)) => {
+                for x in a {
+                    match (x.as_str(), x["signature"].as_str()) {
+                        (Some(s), _) | (None, Some(s)) => {
+                            known.insert(s.to_string());
+                        }
+                        _ => {}
+                    }
+                }
+            }
+            _ => eprintln!("c12: --known-file {path} is not a JSON list; ignored"),
+        }
+    }
     let corpus = load_corpus(&ctx.corpus_dir);
     let total = corpus.len() + n;
+    let have_gdb = !args.flag("no-gdb") && Command::new("gdb").arg("--version").stdout(Stdio::null()).stderr(Stdio::null()).status().map(|s| s.success()).unwrap_or(false);
+    let classify_extra = !args.flag("no-classify");
 
     // distribution (the parent regenerates the same cases as the children)
     let mut families: BTreeMap<String, usize> = BTreeMap::new();
@@ -1998,45 +2082,30 @@ fn search(args: &Args) {
         }
     }
 
+    // run; every failure is replayed alone and classified by the worker that saw it
     let stats = Mutex::new(Stats::default());
-    let fails: Mutex<Vec<Fail>> = Mutex::new(Vec::new());
-    let stop = AtomicUsize::new(0);
-    let chunk_ctr = AtomicUsize::new(0);
-    let nchunks = total.div_ceil(batch);
-    std::thread::scope(|sc| {
-        for _ in 0..jobs.min(nchunks.max(1)) {
-            sc.spawn(|| {
-                loop {
-                    let k = chunk_ctr.fetch_add(1, Ordering::SeqCst);
-                    if k >= nchunks || stop.load(Ordering::SeqCst) >= cap {
-                        break;
-                    }
-                    run_range(&ctx, k * batch, ((k + 1) * batch).min(total), corpus.len(), &stats, &fails, &stop, cap);
-                }
-            });
-        }
-    });
-    let run_ms = t_all.elapsed().as_millis() as u64;
-
-    let mut fails = fails.into_inner().unwrap_or_default();
-    fails.sort_by_key(|f| f.idx);
-    let (mut panics, mut signals, mut timeouts, mut unconfirmed) = (0usize, 0usize, 0usize, 0usize);
-    let mut sigs: BTreeMap<String, usize> = BTreeMap::new();
-    let out = std::io::stdout();
-    let have_gdb = !args.flag("no-gdb") && Command::new("gdb").arg("--version").stdout(Stdio::null()).stderr(Stdio::null()).status().map(|s| s.success()).unwrap_or(false);
-    let classify = !args.flag("no-classify");
-    // phase A (parallel): replay every failure alone and compute its provisional class
-    struct Pre {
-        idx: usize,
-        outcome: Outcome,
-        case: Case,
-        reproduced: bool,
-        site0: Option<(String, String)>,
-        pre: String,
-    }
-    let todo: Vec<&Fail> = fails.iter().filter(|f| f.idx < corpus.len()).chain(fails.iter().filter(|f| f.idx >= corpus.len()).take(cap)).collect();
-    let pres: Vec<Option<Pre>> = par_map(jobs, &todo, |f| {
+    let pres: Mutex<Vec<Pre>> = Mutex::new(Vec::new());
+    let unconfirmed = AtomicUsize::new(0);
+    let new_count = AtomicUsize::new(0); // failures of generated cases with a signature outside the known list
+    let verify_corpus = args.flag("verify-corpus");
+    let on_fail = |f: Fail| {
         let case = case_at(&corpus, ctx.seed, f.idx);
+        // a corpus witness that still fails the way its recorded signature says keeps that signature: no replay, no gdb
+        if let (Some(h), false) = (&case.sig_hint, verify_corpus) {
+            let same_kind = match &f.outcome {
+                Outcome::Panic { .. } => signature(&case, &f.outcome, None) == *h,
+                Outcome::Signal { sig, .. } => h.starts_with(&format!("signal{sig}:")),
+                Outcome::Timeout => h.starts_with("timeout"),
+                Outcome::Ok => false,
+            };
+            if same_kind && f.idx < corpus.len() {
+                let is_known = known.contains(h);
+                if let Ok(mut g) = pres.lock() {
+                    g.push(Pre { idx: f.idx, outcome: f.outcome.clone(), case: case.clone(), reproduced: true, site: None, sig: h.clone(), known: is_known });
+                }
+                return;
+            }
+        }
         let mut again = probe(&ctx, "one", &case, ctx.case_ms + 3000);
         if !again.same_class(&f.outcome) {
             again = probe(&ctx, "one", &case, ctx.case_ms + 3000);
@@ -2051,30 +2120,81 @@ fn search(args: &Args) {
                 reproduced = true;
             } else if f.outcome == Outcome::Timeout {
                 // a timeout that does not reproduce alone was machine load, not the case
-                return None;
+                unconfirmed.fetch_add(1, Ordering::SeqCst);
+                return;
             }
         }
-        let f = &Fail { idx: f.idx, outcome };
-        let is_signal = matches!(f.outcome, Outcome::Signal { .. });
-        let site0 = if is_signal && have_gdb && reproduced { overflow_site(&ctx, &case) } else { None };
-        let pre = signature(&case, &f.outcome, site0.as_ref().map(|s| s.0.as_str()));
-        Some(Pre { idx: f.idx, outcome: f.outcome.clone(), case, reproduced, site0, pre })
+        let is_signal = matches!(outcome, Outcome::Signal { .. });
+        let site = if is_signal && have_gdb && reproduced {
+            overflow_site(&ctx, &case)
+        } else if outcome == Outcome::Timeout && have_gdb && reproduced {
+            // where the time goes: one sample of the stack after 1.5 s of CPU
+            hot_site(&ctx, &case, 1500).map(|f| (f, String::new()))
+        } else {
+            None
+        };
+        let sig = signature(&case, &outcome, site.as_ref().map(|s| s.0.as_str()));
+        let is_known = known.contains(&sig);
+        // corpus witnesses are known failures by construction: only generated cases count towards the cap
+        if !is_known && f.idx >= corpus.len() {
+            new_count.fetch_add(1, Ordering::SeqCst);
+        }
+        if let Ok(mut g) = pres.lock() {
+            g.push(Pre { idx: f.idx, outcome, case, reproduced, site, sig, known: is_known });
+        }
+    };
+    // corpus witnesses (known crashes, each costs a replay and a classification) go one per chunk so that they spread
+    // over the workers, and they always run; generated cases come in batches and stop at the run deadline
+    let mut chunks: Vec<(usize, usize)> = (0..corpus.len()).map(|i| (i, i + 1)).collect();
+    let mut i = corpus.len();
+    while i < total {
+        chunks.push((i, (i + batch).min(total)));
+        i += batch;
+    }
+    let chunk_ctr = AtomicUsize::new(0);
+    std::thread::scope(|sc| {
+        for _ in 0..jobs.min(chunks.len().max(1)) {
+            sc.spawn(|| {
+                loop {
+                    let k = chunk_ctr.fetch_add(1, Ordering::SeqCst);
+                    if k >= chunks.len() {
+                        break;
+                    }
+                    let (from, to) = chunks[k];
+                    let is_corpus = from < corpus.len();
+                    let late = run_deadline.map(|d| Instant::now() >= d).unwrap_or(false);
+                    if !is_corpus && (new_count.load(Ordering::SeqCst) >= cap || late) {
+                        break;
+                    }
+                    run_range(&ctx, from, to, &stats, &on_fail, &new_count, cap, run_deadline);
+                }
+            });
+        }
     });
-    unconfirmed += pres.iter().filter(|p| p.is_none()).count();
-    let pres: Vec<Pre> = pres.into_iter().flatten().collect();
-    // one shrink per class: the first case (lowest index) of every provisional signature
-    let mut shrunk_sigs: HashSet<String> = HashSet::new();
-    let plan: Vec<(&Pre, bool)> = pres.iter().map(|p| (p, p.reproduced && !p.case.minimal && shrunk_sigs.insert(p.pre.clone()))).collect();
-    // phase B (parallel): shrink, confirm, classify
-    let recs: Vec<(String, Value)> = par_map(jobs, &plan, |(p, do_shrink)| {
-        let do_shrink = *do_shrink;
+    let run_ms = t_all.elapsed().as_millis() as u64;
+    let mut pres = pres.into_inner().unwrap_or_default();
+    pres.sort_by_key(|p| p.idx);
+    let st = stats.into_inner().unwrap_or_default();
+    let budget_exhausted = st.cases < total && new_count.load(Ordering::SeqCst) < cap && run_deadline.is_some();
+
+    // new signatures first: every failure is reported (at most `cap`), the first of each signature is shrunk
+    let mut sigs: BTreeMap<String, usize> = BTreeMap::new();
+    for p in &pres {
+        *sigs.entry(p.sig.clone()).or_default() += 1;
+    }
+    let mut seen: HashSet<String> = HashSet::new();
+    let new_plan: Vec<(&Pre, bool)> = pres.iter().filter(|p| !p.known).take(cap.max(1) + corpus.len()).map(|p| (p, p.reproduced && !p.case.minimal && seen.insert(p.sig.clone()))).collect();
+    let left_ms = |d: Option<Instant>| -> u64 { d.map(|d| d.saturating_duration_since(Instant::now()).as_millis() as u64).unwrap_or(u64::MAX) };
+    let new_recs: Vec<Value> = par_map(jobs, &new_plan, |(p, want_shrink)| {
         let is_signal = matches!(p.outcome, Outcome::Signal { .. });
         let max_runs = match p.outcome {
             Outcome::Panic { .. } => 400,
             Outcome::Signal { .. } => 150,
             _ => 60,
         };
-        let (shrunk, runs) = if do_shrink { shrink(&ctx, &p.case, &p.outcome, max_runs, 60_000) } else { (p.case.clone(), 0) };
+        let shrink_ms = left_ms(end_deadline).min(60_000);
+        let do_shrink = *want_shrink && shrink_ms > 3000;
+        let (shrunk, runs) = if do_shrink { shrink(&ctx, &p.case, &p.outcome, max_runs, shrink_ms) } else { (p.case.clone(), 0) };
         let confirmed = if do_shrink {
             let mut o = probe(&ctx, "one", &shrunk, ctx.case_ms + 3000);
             if !o.same_class(&p.outcome) {
@@ -2088,57 +2208,83 @@ fn search(args: &Args) {
             p.reproduced
         };
         let use_case = if confirmed && do_shrink { &shrunk } else { &p.case };
-        let site = if is_signal && have_gdb && do_shrink && confirmed { overflow_site(&ctx, use_case).or(p.site0.clone()) } else { p.site0.clone() };
-        let sig = signature(use_case, &p.outcome, site.as_ref().map(|s| s.0.as_str()));
         let mut rec = json!({
-            "signature": sig, "what": what(&p.outcome, &ctx), "kind": p.outcome.kind(), "index": p.idx,
+            "signature": p.sig, "what": what(&p.outcome, &ctx), "kind": p.outcome.kind(), "index": p.idx, "known": false,
             "reproduced_alone": p.reproduced, "shrunk_confirmed": confirmed, "shrink_runs": runs, "shrink_skipped": !do_shrink,
             "case": p.case.to_json(), "shrunk": use_case.to_json(),
         });
-        if let Some((fun, entry)) = &site {
+        if let Some((fun, entry)) = &p.site {
             rec["recursion_in"] = json!(fun);
             rec["entry_point"] = json!(entry);
         }
-        let first_of_class = do_shrink; // fresh discoveries only; corpus witnesses are just replayed and classified by site
-        if is_signal && classify && first_of_class {
-            let po = probe(&ctx, "parse-only", use_case, ctx.case_ms + 3000);
-            rec["parser_only_crashes"] = json!(matches!(po, Outcome::Signal { .. }));
-            // unbounded or merely deep recursion? replay with a 32x stack
-            let mut big = ctx.clone();
-            big.stack_kib = ctx.stack_kib * 32;
-            rec["survives_32x_stack"] = json!(probe(&big, "one", use_case, ctx.case_ms * 4 + 3000) == Outcome::Ok);
+        let time_for_extras = left_ms(end_deadline) > 20_000;
+        if do_shrink && classify_extra && time_for_extras {
+            if is_signal {
+                // the class of the shrunk case, for information (the signature stays the one of the unshrunk case)
+                if have_gdb && confirmed {
+                    if let Some((fun, _)) = overflow_site(&ctx, use_case) {
+                        rec["shrunk_recursion_in"] = json!(fun);
+                    }
+                }
+                let po = probe(&ctx, "parse-only", use_case, ctx.case_ms + 3000);
+                rec["parser_only_crashes"] = json!(matches!(po, Outcome::Signal { .. }));
+                // unbounded or merely deep recursion? replay with a 32x stack
+                let mut big = ctx.clone();
+                big.stack_kib = ctx.stack_kib * 32;
+                rec["survives_32x_stack"] = json!(probe(&big, "one", use_case, ctx.case_ms * 4 + 3000) == Outcome::Ok);
+            }
+            if p.outcome == Outcome::Timeout {
+                // slow or (practically) unbounded? replay once with a budget of 10x, at most 60 s of CPU
+                let t1 = Instant::now();
+                let o = probe(&ctx, "one", use_case, (ctx.case_ms * 10).min(60_000));
+                rec["finishes_within_10x"] = if o == Outcome::Ok { json!(t1.elapsed().as_millis() as u64) } else { Value::Null };
+            }
         }
-        if p.outcome == Outcome::Timeout && classify && first_of_class {
-            // slow or (practically) unbounded? replay once with a budget of 10x, at most 60 s of CPU
-            let t1 = Instant::now();
-            let o = probe(&ctx, "one", use_case, (ctx.case_ms * 10).min(60_000));
-            rec["finishes_within_10x"] = if o == Outcome::Ok { json!(t1.elapsed().as_millis() as u64) } else { Value::Null };
-        }
-        Some((p.outcome.kind().to_string(), rec))
+        Some(rec)
     })
     .into_iter()
     .flatten()
     .collect();
-    for (kind, rec) in &recs {
-        match kind.as_str() {
-            "panic" => panics += 1,
-            "signal" => signals += 1,
-            _ => timeouts += 1,
+    // known signatures: one line per signature, never shrunk
+    let mut known_recs: Vec<Value> = Vec::new();
+    let mut seen_known: HashSet<String> = HashSet::new();
+    for p in pres.iter().filter(|p| p.known) {
+        if seen_known.insert(p.sig.clone()) {
+            let mut rec = json!({
+                "signature": p.sig, "what": what(&p.outcome, &ctx), "kind": p.outcome.kind(), "index": p.idx, "known": true,
+                "reproduced_alone": p.reproduced, "shrunk_confirmed": false, "shrink_runs": 0, "shrink_skipped": true,
+                "count": sigs.get(&p.sig).cloned().unwrap_or(1), "case": p.case.to_json(), "shrunk": p.case.to_json(),
+            });
+            if let Some((fun, entry)) = &p.site {
+                rec["recursion_in"] = json!(fun);
+                rec["entry_point"] = json!(entry);
+            }
+            known_recs.push(rec);
         }
-        *sigs.entry(rec["signature"].as_str().unwrap_or("").to_string()).or_default() += 1;
+    }
+    {
+        let out = std::io::stdout();
         let mut lk = out.lock();
-        let _ = writeln!(lk, "{rec}");
+        for rec in new_recs.iter().chain(known_recs.iter()) {
+            let _ = writeln!(lk, "{rec}");
+        }
         let _ = lk.flush();
     }
-    let st = stats.into_inner().unwrap_or_default();
+    let count_kind = |k: &str| pres.iter().filter(|p| p.outcome.kind() == k).count();
+    let mut new_sigs: Vec<String> = pres.iter().filter(|p| !p.known).map(|p| p.sig.clone()).collect::<HashSet<_>>().into_iter().collect();
+    new_sigs.sort();
+    let mut known_seen: Vec<String> = seen_known.into_iter().collect();
+    known_seen.sort();
     let summary = json!({"summary": {
         "cases": st.cases, "planned": total, "corpus": corpus.len(), "distinct_nontrivial": distinct.len(),
         "families": families, "top_families": top, "levels": levels, "options": optd,
-        "panics": panics, "signals": signals, "timeouts": timeouts, "timeouts_unconfirmed": unconfirmed, "raw_failures": fails.len(),
-        "signatures": sigs, "stopped_early": fails.iter().filter(|f| f.idx >= corpus.len()).count() >= cap,
+        "panics": count_kind("panic"), "signals": count_kind("signal"), "timeouts": count_kind("timeout"),
+        "timeouts_unconfirmed": unconfirmed.load(Ordering::SeqCst), "raw_failures": pres.len(),
+        "signatures": sigs, "new_signatures": new_sigs, "known_signatures_seen": known_seen,
+        "stopped_early": new_count.load(Ordering::SeqCst) >= cap, "budget_exhausted": budget_exhausted, "budget_ms": budget_ms,
         "max_case_ms": st.max_ms, "slowest_index": st.slowest.map(|s| s.1), "sum_case_ms": st.sum_ms, "run_ms": run_ms, "total_ms": t_all.elapsed().as_millis() as u64,
         "bytes": bytes, "max_case_bytes": max_bytes, "tokens_queried": st.tokens, "exprs_inferred": st.exprs, "semantic_infos": st.infos, "diagnostics_seen": st.diags,
-        "stack_kib": ctx.stack_kib, "case_ms": ctx.case_ms, "jobs": jobs,
+        "stack_kib": ctx.stack_kib, "case_ms": ctx.case_ms, "jobs": jobs, "gdb": have_gdb,
     }});
     println!("{summary}");
 }
@@ -2165,7 +2311,7 @@ fn limits(args: &Args) {
         for mode in ["parse-only", "one"] {
             let mk = |d: usize| -> Case {
                 let mut rng = Rng::new(7);
-                Case { files: vec![("main.lua".into(), deep_text(k.name, d, &mut rng))], cfg: json!({}), family: format!("deep:{}", k.name), opts: Opts { std: false, batch: false, all_diag: true, depth: d, mutated: false }, minimal: true }
+                Case { files: vec![("main.lua".into(), deep_text(k.name, d, &mut rng))], cfg: json!({}), family: format!("deep:{}", k.name), opts: Opts { std: false, batch: false, all_diag: true, depth: d, mutated: false }, minimal: true, sig_hint: None }
             };
             // largest depth that survives, by doubling then bisection
             let mut lo = 1usize;
